@@ -275,3 +275,99 @@ def overrides(m1=True):
         return default
     return {str.__mod__: _fmt, int: _int, float: _float, codecs.encode: _encode,
             hasattr: _hasattr, getattr: _getattr}
+
+
+def rnd64_expr(r, decide):
+    """z3 Real expression r -> z3 Real expression for the nearest binary64 value (ties to even).
+    `decide(bool expr) -> bool` picks the branch: a forking decision of the path explorer, or plain
+    evaluation when r is a constant (self-test)."""
+    import z3
+    from fractions import Fraction
+    HALF = z3.RealVal('1/2')
+    if decide(r == 0):
+        return r
+    neg = decide(r < 0)
+    a = -r if neg else r
+    if decide(a >= z3.RealVal(2 ** 1024)):
+        return r
+    lo, hi = -1075, 1024          # 2**lo <= a < 2**hi  (below 2**-1074: rounds within the subnormal grid)
+    while hi - lo > 1:
+        mid = (lo + hi) // 2
+        if decide(a >= z3.RealVal(Fraction(2) ** mid)):
+            lo = mid
+        else:
+            hi = mid
+    e = lo
+    t = 1074 if e < -1022 else 52 - e
+    scale = z3.RealVal(Fraction(2) ** t)
+    scaled = a * scale
+    fl = z3.ToInt(scaled)
+    frac = scaled - z3.ToReal(fl)
+    m = z3.If(frac > HALF, fl + 1, z3.If(frac < HALF, fl, z3.If(fl % 2 == 0, fl, fl + 1)))
+    res = z3.ToReal(m) / scale
+    return -res if neg else res
+
+
+def selftest_rnd64(n=800):
+    """the rounding formula of M12, run on constants, against the interpreter's own binary64 arithmetic"""
+    import random
+    import z3
+    from fractions import Fraction
+    rng = random.Random(64)
+    decide = lambda e: z3.is_true(z3.simplify(e))
+
+    def rnd(fr):
+        v = z3.simplify(rnd64_expr(z3.RealVal(fr), decide))
+        return Fraction(v.numerator_as_long(), v.denominator_as_long())
+    checked = 0
+    for i in range(n):
+        k = rng.randint(1, 9)
+        digits = rng.randint(0, 10 ** k - 1)
+        lit = '0.%0*d' % (k, digits)
+        x = float(lit)
+        assert rnd(Fraction(digits, 10 ** k)) == Fraction(x), ('parse', lit)
+        y = rng.choice([1000000.0, 1e3, 60.0, 0.1, 3.0, rng.random() * 10 ** rng.randint(-5, 5)])
+        assert rnd(Fraction(x) * Fraction(y)) == Fraction(x * y), ('mul', x, y)
+        assert rnd(Fraction(x) + Fraction(y)) == Fraction(x + y), ('add', x, y)
+        p, q = rng.randint(-10 ** 12, 10 ** 12), rng.randint(1, 10 ** 9)
+        assert rnd(Fraction(p, q)) == Fraction(p / q), ('div', p, q)
+        checked += 4
+    for fr, want in [(Fraction(1, 2 ** 1075), 0.0), (Fraction(3, 2 ** 1075), 2 ** -1073), (Fraction(2 ** 53 + 1), 2.0 ** 53), (Fraction(2 ** 53 + 3), 2.0 ** 53 + 4),
+                     (Fraction(5, 2 ** 1074), 5e-324 * 5)]:
+        assert rnd(fr) == Fraction(want), fr
+        checked += 1
+    return 'M12 rounding formula agrees with binary64 parse / + / * / int-by-int division on %d cases (ties and subnormals included)' % checked
+
+
+def ieee_rounding():
+    """M12: binary64 rounding on top of the Real representation of floats.
+
+    With floats pinned to z3 Reals (floats_as_reals) arithmetic is exact, so code that routes an
+    exact decimal computation through binary floating point looks correct.  For jobs that ask for
+    it (Job(..., ieee=True)) every result of +, -, *, / that is a symbolic float - which includes
+    int / int, the last step of the float(str) model M3f - is rounded to the nearest binary64
+    value, ties to even: the path forks on the binade of the exact result (binary search over the
+    exponent, one solver decision each), then  m = round_half_even(|r| * 2**t),  result = m / 2**t
+    with t = 52 - e (t = 1074 in the subnormal range) is linear integer / real arithmetic.
+    Results beyond the largest finite double are left unrounded (outside every claim).
+    Self-test: selftest_rnd64 (the same function on constants against the interpreter's arithmetic)."""
+    import operator as ops
+    import z3
+    from fractions import Fraction
+    from crosshair.libimpl import builtinslib as bl
+    orig = bl.numeric_binop_internal
+    ROUNDED = (ops.add, ops.sub, ops.mul, ops.truediv)
+    HALF = z3.RealVal('1/2')
+
+    def decide(expr):
+        return bl.SymbolicBool(expr).__bool__()
+
+    def rnd(r):
+        return rnd64_expr(r, decide)
+
+    def wrapped(op, a, b):
+        ret = orig(op, a, b)
+        if op in ROUNDED and type(ret) is bl.RealBasedSymbolicFloat:
+            return bl.RealBasedSymbolicFloat(rnd(ret.var))
+        return ret
+    bl.numeric_binop_internal = wrapped
